@@ -1,6 +1,7 @@
 import DtsVerif.AuditCmd
 import DtsVerif.Props.C01
 import DtsVerif.Props.C02
+import DtsVerif.Props.C07
 import DtsVerif.Props.C14
 import DtsVerif.Props.C15
 import DtsVerif.Props.C16
